@@ -30,6 +30,8 @@ structure JSt where
   -- C05 (producer layer): acknowledgement mode and time-out the producer was built with
   prodAcks : Int := 1
   prodTimeout : Int := 30000
+  -- C14: groups whose last answer was 'not coordinator for group': the next attempt, in whatever call, needs a look-up first
+  needLookup : List String := []
 
 def applySetup (c : Cluster) (cmds : List (List String)) : Cluster :=
   cmds.foldl (fun c t => (Driver.setup c t).getD c) c
@@ -173,6 +175,7 @@ def judgeC03 (ops : List OpRec) : List String :=
     let s := { s with cluster := applySetup s.cluster op.setup }
     match op.toks with
     | [_, "set", "compression", c] => { s with compression := c.toNat?.getD 0 }
+    | "client_new" :: _ => { s with compression := 0 }
     | _ :: "produce" :: _ :: _ :: _ :: args =>
       match parseProduceArgs args with
       | none => s
@@ -220,7 +223,8 @@ def trackSettings (s : JSt) (op : OpRec) : JSt :=
   | [_, "set", "storage", v] => { s with storage := v }
   | [_, "set", "crc", v] => { s with crcOn := v == "1" }
   | [_, "set", "retry_max", v] => { s with retryMax := v.toNat?.getD 0 }
-  | ["client_new", _] => { s with clientId := [], compression := 0, fetchMaxWait := 100, fetchMinBytes := 4096, fetchMaxBytes := 32768, storage := "none" }
+  -- a new client: default settings, and a correlation sequence of its own
+  | ["client_new", _] => { s with clientId := [], compression := 0, fetchMaxWait := 100, fetchMinBytes := 4096, fetchMaxBytes := 32768, storage := "none", maxCorr := 0 }
   | _ => s
 
 def reqFrames (op : OpRec) : List (Bytes × Bytes) :=
@@ -599,8 +603,11 @@ def judgeC14 (ops : List OpRec) : List String :=
         | some w => if op.result == w then s else viol s "C14-result" op s!"returned `{op.result}`, expected `{w}`"
         | none => if lastIsMain && lastMain == some .ok && op.result.startsWith "err" then viol s "C14-success-lost" op s!"an attempt succeeded but the call returned `{op.result}`" else s
       -- after 'not coordinator' (16) the next attempt is preceded by a look-up and goes to the broker it names
+      let grp : String := op.toks.getD 2 ""
       let rec walk : List (Bytes × Request × RespBody) → Bool → Option Bytes → JSt → JSt
-        | [], _, _, s => s
+        | [], needLookup, _, s =>
+          -- what is remembered about the coordinator outlives the call
+          { s with needLookup := (s.needLookup.filter (· != grp)) ++ (if needLookup then [grp] else []) }
         | (h, r, b) :: rest, needLookup, named, s =>
           if r.header.apiKey = 10 then
             match b with
@@ -614,7 +621,11 @@ def judgeC14 (ops : List OpRec) : List String :=
             let is16 := match classify api b with | some (.retry 16) => true | _ => false
             walk rest is16 (if is16 then none else named) s
           else walk rest needLookup named s
-      walk bodies false none s
+      walk bodies (s.needLookup.contains grp) none s
+    -- dropping the metadata does not by itself forget or refresh a coordinator; a new client does
+    let s := match op.toks with
+      | "client_new" :: _ => { s with needLookup := [] }
+      | _ => s
     { s with cluster := c' }) ({} : JSt)
   s.out
 
@@ -1483,6 +1494,13 @@ def judgeC08 (ops : List OpRec) : List String :=
       let s := if want.isEmpty && !commits.isEmpty then v s "C08-commit-without-change" op "a commit request was sent although no mark changed" else s
       if op.result == "ok" then
         let s := if !want.isEmpty && commits.isEmpty then v s "C08-commit-not-sent" op s!"commit returned ok without sending {want}" else s
+        -- a commit that reports success has persisted the marks: the coordinator's store (the specification broker's,
+        -- after this operation's requests) holds mark + 1 for every partition that had changed
+        let after := evolve s.cluster op
+        let s := dirty.foldl (fun (s : J08) (x : (Bytes × Int) × (Int × Bool)) =>
+          let stored := (after.groups.find? fun (g : (Bytes × Bytes × Int) × Int) => g.1 == (s.group, x.1.1, x.1.2)).map (fun (g : (Bytes × Bytes × Int) × Int) => g.2)
+          if stored == some (x.2.1 + 1) then s
+          else v s "C08-commit-not-stored" op s!"commit returned ok, but the coordinator holds {stored} for {toHexTok x.1.1}/{x.1.2}; the mark is {x.2.1}") s
         { s with marks := s.marks.map fun (x : (Bytes × Int) × (Int × Bool)) => (x.1, (x.2.1, false)) }
       else s
     | _ => s
@@ -1700,8 +1718,44 @@ def normaliseOp (op : OpRec) : List OpRec :=
     { op with toks := ["poll"], result := pollRes } :: consumes
   | _ => [op]
 
+/-- the Producer layer, judged as what it is documented to be: a client whose settings are those given to the builder, and
+    `send_all` / `send` of records with explicit partitions = `produce_messages` with the producer's acks and time-out
+    (partition choice for records without one is C12's own subject and is left alone).  `producer_create hosts=… opts`
+    becomes the creation of a fresh client followed by the settings; `producer_create client opts` keeps the client's. -/
+def normaliseProducer (ops : List OpRec) : List OpRec :=
+  let tok (b : String) : String := if b == "-" then "~" else b
+  let r := ops.foldl (fun (acc : List OpRec × Int × Nat × Nat) (op : OpRec) =>
+    let (out, acks, secs, nanos) := acc
+    match op.toks with
+    | "producer_create" :: from_ :: opts =>
+      let acks' : Int := ((lastOpt opts "acks").bind (·.toInt?)).getD 1
+      let (secs', nanos') : Nat × Nat := match (lastOpt opts "acktimeout").map (fun (v : String) => v.splitOn ":") with
+        | some [a, b] => (a.toNat?.getD 30, b.toNat?.getD 0)
+        | _ => (30, 0)
+      let fresh : List OpRec := if from_ == "client" then [] else
+        [{ idx := op.idx, toks := ["client_new", (from_.splitOn "=").getD 1 ""], evs := [], result := "ok" }]
+      let settings : List OpRec := opts.filterMap fun (o : String) =>
+        let (k, v) := kv o
+        if k == "compression" then some { idx := op.idx, toks := ["p", "set", "compression", v], evs := [], result := "ok" }
+        else if k == "clientid" then some { idx := op.idx, toks := ["p", "set", "client_id", v], evs := [], result := "ok" }
+        else none
+      -- the creation itself stays, with its events (the bootstrap metadata request carries the configured client id)
+      (out ++ fresh ++ settings ++ [op], acks', secs', nanos')
+    | "send_all" :: args =>
+      let explicit := (Replay.parseRecords args).map fun (rs : List Model.Record) => rs.all fun (r : Model.Record) => r.partition ≥ 0
+      if explicit == some true then
+        let rec conv : List String → List String
+          | t :: p :: k :: v :: rest => t :: p :: tok k :: tok v :: conv rest
+          | l => l
+        (out ++ [{ op with toks := ["p", "produce", toString acks, toString secs, toString nanos] ++ conv args }], acks, secs, nanos)
+      else (out ++ [op], acks, secs, nanos)
+    | _ => (out ++ [op], acks, secs, nanos)) ([], (1 : Int), 30, 0)
+  r.1
+
 def judge (prop : String) (lines : List String) : List String :=
-  let ops := (parseOps lines).flatMap normaliseOp
+  let ops0 := (parseOps lines).flatMap normaliseOp
+  -- the properties about the producer's own decisions and settings look at the producer's operations as they are
+  let ops := if prop ∈ ["C12", "C16", "C13", "C18"] then ops0 else normaliseProducer ops0
   match prop with
   | "C12" => judgeC12 ops
   | "C03" => judgeC03 ops
